@@ -530,7 +530,7 @@ class TreeTransformBase(TreeTransform):
         """
         orphans = []
         # Find the potential orphans, stop if one item should be kept
-        for child_tid in self.by_parent()[dir_id]:
+        for child_tid in self.by_parent().get(dir_id, ()):
             if child_tid in self._removed_contents:
                 # The child is removed as part of the transform. Since it was
                 # versioned before, it's not an orphan
